@@ -222,6 +222,12 @@ def run(ctx):
         if kk in seen:
             continue
         seen.add(kk)
+        ent = r.tabled("C19.none", kk)
+        if ent is not None and "callee_none_profile" in ent:
+            prof = nf.none_profile(u.callee)
+            if prof != ent["callee_none_profile"]:
+                r.fail("C19.none", kk + ":callee-changed", "this use of a possibly-None result was triaged as safe when %s returned None under %s; it now does so under %s, so the recorded argument (%s) no longer applies: a TypeError traceback instead of a report" % (u.callee.key, ent["callee_none_profile"], prof, ent.get("reason", "")[:100]), u.fi.loc(u.node))
+                continue
         r.fail(
             "C19.none",
             kk,
@@ -527,6 +533,11 @@ def _unbound_in(fi):
 
 
 VARIANTS = [
+    Variant("C19", "line-start look-up answers None for every token of the first line", "fire",
+            [("vsg/token_map.py", "        if iIndex == 0:\n            return None\n        iTemp = bisect.bisect_left(self.dMap[\"parser\"][\"carriage_return\"], iIndex) - 1\n        if iIndex < self.dMap[\"parser\"][\"carriage_return\"][iTemp]:\n            return iIndex\n", "        iTemp = bisect.bisect_left(self.dMap[\"parser\"][\"carriage_return\"], iIndex) - 1\n        if iTemp < 0:\n            return None\n")],
+            rule="C19.none", key="callee-changed"),
+    Variant("C19", "twin: the index-0 test of the line-start look-up held in a local", "silent",
+            [("vsg/token_map.py", "    def get_index_of_carriage_return_before_index(self, iIndex):\n        if iIndex == 0:\n            return None", "    def get_index_of_carriage_return_before_index(self, iIndex):\n        bFirstToken = iIndex == 0\n        if bFirstToken:\n            return None")]),
     Variant("C19", "parse-error result built by a helper that returns the stop flag", "fire",
             [("vsg/apply_rules.py", "        sOutputErr = f\"Error while processing {sFileName}: {e.message}\"\n        return fExitStatus, testCase, dJsonEntry, sOutputStd, sOutputErr, bKeepProcessingFiles", "        return create_error_result(sFileName, e, testCase)"),
              ("vsg/apply_rules.py", "def create_junit_testcase(sVhdlFileName, oException):", "def create_error_result(sFileName, oException, testCase):\n    dJsonEntry = {\"file_path\": sFileName, \"violations\": []}\n    return True, testCase, dJsonEntry, \"\", f\"Error while processing {sFileName}: {oException.message}\", bStopProcessingFiles\n\n\ndef create_junit_testcase(sVhdlFileName, oException):")], rule="C19.boundary", key="classify-error-stops-run"),
